@@ -165,6 +165,10 @@ def run(chk):
             if r0 != ("ok", (len(A), 0)) or r1 != ("ok", (0, len(A))):
                 chk.violation(f"C09|{cname}|cdist|empty-table", f"{cname}.calc_cdist_matrix with a table of no rows gives shapes {r0} / {r1}, expected "
                               f"({len(A)}, 0) / (0, {len(A)})", meta)
+        # both tables given by keyword, the second one first: the roles are decided by the NAMES, not by the order they are written in
+        rk = core.call_real(lambda: np.asarray(metric.calc_cdist_matrix(comparisons=B, anchors=A)))
+        ops.append({"op": "tcr_cdist", "chain": chain, "cdr": cdr, "w": wl, "as": ma, "bs": mb})
+        checks.append(("cdist", {**meta, "call": "calc_cdist_matrix(comparisons=B, anchors=A)"}, rk, unchanged, (ma, mb)))
         # the SAME table object on both sides: every cell (with unequal gap weights the matrix is not symmetric)
         rs = core.call_real(lambda: np.asarray(metric.calc_cdist_matrix(A, A)))
         ops.append({"op": "tcr_cdist", "chain": chain, "cdr": cdr, "w": wl, "as": ma, "bs": ma})
